@@ -325,7 +325,17 @@ func (w *World) probeDouble(ev Event) bool {
 	nd.Clock.DropHandlers()
 	var d string
 	direct := nd.Direct
+	removed := nd.HostRemoved
 	if err := nd.build(); err == nil {
+		// (the host takes out again what it had taken out)
+		rn := make([]string, 0, len(removed))
+		for n := range removed {
+			rn = append(rn, n)
+		}
+		sort.Strings(rn)
+		for _, n := range rn {
+			nd.HostRemove(n)
+		}
 		// (function objects that had been told a schedule of their own are told it again)
 		names := make([]string, 0, len(direct))
 		for n := range direct {
